@@ -41,5 +41,5 @@ CfgSetNsid == {CfgPlain, [nsid |-> TRUE, ratelimit |-> FALSE, ecs |-> "off"]}
 CfgSetEcs == {[nsid |-> FALSE, ratelimit |-> FALSE, ecs |-> e] : e \in {"off", "on", "invalid"}}
 ContentsSmall == {"pos", "nx"}
 ContentsEcs == {"pos", "upecs"}
-AllContents == {"pos", "signed", "nx", "nodata", "ede", "big", "servfail", "upecs", "upcookie", "cname", "cnamesplit", "hosts", "as112"}
+AllContents == {"pos", "signed", "nx", "nodata", "ede", "big", "servfail", "upecs", "upcookie", "cname", "cnamesplit", "panic", "hosts", "as112"}
 =============================================================================
